@@ -233,7 +233,7 @@ impl Part for C10 {
                     // as recipient key at the sender
                     let pred = r1_setup_s(*suite, &m, &u, &info, &k.ikm_e);
                     if pred.is_none() {
-                        out.fail(format!("R1 rejects negative #{} - the negative list is wrong (machinery)", i));
+                        out.fail_machinery(format!("R1 rejects negative #{} - the negative list is wrong", i));
                         continue;
                     }
                     let (enc_ref, rctx) = pred.unwrap();
